@@ -1,16 +1,41 @@
 SPEC = {
-    "claimed": False,
-    "gen": [],
-    "theorems": ["C18_nonvacuous"],
+    "claimed": True,
+    "gen": ["serverbrowse"],
+    "theorems": ["C18_total", "C18_merge_order_free", "C18_complete_iff", "C18_complete_without_main", "C18_sort", "C18_parsed_parts",
+                 "C18_parse_i32", "C18_truncation", "K18_refuted",
+                 "C18_repaired_merge_order_free", "C18_repaired_complete_iff", "C18_nonvacuous"],
     "allowed_axioms": [],
     "extract": {
         "LibTw2.Model.ServerBrowse": ["parse_response", "parse_info", "is_partial_kind", "merge", "get_info",
                                       "take_info", "has_repeat"],
     },
-    "components": [{"bin": "serverbrowse", "driver": "drv_serverbrowse"}],
-    "release": False,
+    "components": [{"bin": "serverbrowse", "driver": "drv_serverbrowse",
+                    "timeout": {"quick": 600, "thorough": 3000}}],
+    "release": True,
     "rule": "see components.serverbrowse.rule",
-    "trusted_base": [],
-    "assumptions": [],
-    "explanation": "",
+    "trusted_base": [
+        "Model/ServerBrowse.v is hand-written from serverbrowse/src/protocol.rs, common/src/str.rs and the parts of "
+        "core it relies on (str::from_utf8 acceptance set, <i32 as FromStr>, str::is_char_boundary, "
+        "RangeFrom<u32>::next, derive(Ord) on ClientInfo / str ordering = byte-wise); the header constants are "
+        "transcribed by hand and exercised by the correspondence run (every header, every one-byte deviation)",
+        "PartialServerInfo keeps `info` and `received` private: the harness reads them from the derived Debug "
+        "text (un-escaped; map_crc/map_size are only visible through get_info on complete infos)",
+    ],
+    "assumptions": [
+        "a datagram is a list of bytes (bytes_ok) shorter than 2^31 (datagram_ok); beyond that the u32 client "
+        "counter of `for j in offset..` could overflow in a debug build (site 1807)",
+        "merge theorems: the parts are PartialServerInfo values of one info (same_info: same token and multi-part "
+        "version, pairwise disjoint masks, a part with empty mask has no client, parts agree on the header); orders "
+        "are non-empty lists of valid part indices",
+        "code as it is (known finding K18): orders without a repeated part (has_repeat o = false); with the "
+        "one-line repair the same theorems hold for every order (C18_repaired_*)",
+        "complete_iff: the announcing part pm is in the order (for an extended info: the main part); the received "
+        "clients number at most i32::MAX (get_info asserts it)",
+    ],
+    "explanation": "C18_total: structural case analysis of the model, all byte strings < 2^31 bytes, every panic site "
+                   "(slice bounds, transmute asserts, ArrayString overflow, assert_u32, both `1 << n`, the u32 range "
+                   "counter) shown unreachable and the fuel sufficient. Merge theorems: induction over the order list "
+                   "with one invariant (carrier part with header priority for the main part, clients = those of the "
+                   "merged parts each once, mask). The model is tied to the crate by running both on the same "
+                   "datagrams and merge histories; the oracle asserts the property's statements on the real code.",
 }
